@@ -3,6 +3,7 @@ import Driver.Util
 import Driver.OpsView
 import Driver.OpsPack
 import Driver.OpsContent
+import Driver.OpsPipeline
 
 open Jubako Jubako.Driver
 
@@ -26,6 +27,7 @@ def dispatch (line : String) : IO String := do
   | "mp.setloc" :: args => runPack readFileBytes "mp.setloc" args
   | "cp.decode" :: args => runContent fileOf "cp.decode" args
   | "cp.encode" :: args => runContent fileOf "cp.encode" args
+  | "hist.pipeline" :: args => runPipelineHist fileOf args
   | ["ping"] => return "pong"
   | _ => return "bad-op"
 
